@@ -27,8 +27,10 @@ def build(ctx: Any, spec: List[str], prefix: str) -> List[Any]:
     out = []
     for i, item in enumerate(spec):
         kind, name = item.split(':')
-        if kind == 'TXT':
-            out.append(DNSText(name, const._TYPE_TXT, IN | UNIQUE, 4500, Blob(ctx.int(f'{prefix}{i}_len', 0, MAXLEN)), 1000))
+        if kind.startswith('TXT'):
+            # 'TXT<=300:name' bounds the symbolic rdata length (messages of hundreds of entries: the boundary still sweeps over several entries)
+            hi = int(kind.split('<=')[1]) if '<=' in kind else MAXLEN
+            out.append(DNSText(name, const._TYPE_TXT, IN | UNIQUE, 4500, Blob(ctx.int(f'{prefix}{i}_len', 0, hi)), 1000))
         elif kind == 'A':
             out.append(DNSAddress(name, const._TYPE_A, IN | UNIQUE, 120, b'\x0a\x00\x00\x01', None, 1000))
         elif kind == 'PTR':
@@ -135,6 +137,9 @@ THOROUGH = {
     'query-many': sh(query=True, questions=['Q:_s._tcp.local.', 'Q:_t._tcp.local.'], answers=['TXT:a._s._tcp.local.', 'TXT:b._t._tcp.local.', 'PTR:_s._tcp.local.>a._s._tcp.local.']),
     'unicast-query': sh(query=True, multicast=False, questions=['Q:_s._tcp.local.'], answers=['TXT:a._s._tcp.local.', 'TXT:b._s._tcp.local.']),
     'shared-after-two': sh(answers=['TXT:a.x.local.', 'TXT:a.x.local.'], additionals=['SRV:a.x.local.>a.x.local.']),
+    # hundreds of entries: the TXT length (0..300) shifts every later packet boundary across several entries
+    'many-questions': sh(query=True, questions=[f'Q:_t{i:02d}._tcp.local.' for i in range(80)], answers=['TXT<=300:big._s._tcp.local.'] + [f'PTR:_s._tcp.local.>i{i:03d}._s._tcp.local.' for i in range(60)]),
+    'many-answers': sh(answers=['TXT<=300:big._s._tcp.local.'] + [f'PTR:_s._tcp.local.>i{i:03d}._s._tcp.local.' for i in range(110)], additionals=[f'A:h{i:02d}.local.' for i in range(30)]),
 }
 
 
@@ -156,8 +161,8 @@ META = {
         '_write_question/_write_record/_check_data_limit_or_rollback/write_name/_write_utf/_write_link_to_name/_write_record_class/_write_ttl/write_string/'
         'write_character_string/write_short/_insert_short_at_start/_replace_short/_reset_for_next_packet', 'DNSText/DNSAddress/DNSPointer/DNSService/DNSHinfo.write',
     ],
-    'bounds': {'rdata length': [0, MAXLEN], 'id': [0, 65535], 'entries': '<= 7 per message, <= 3 symbolic-length records', 'names': 'fixed small vocabulary with shared suffixes'},
-    'outside': ['entries that cannot fit 8966 octets even alone (the code emits an empty datagram and stops)', 'hundreds of entries', 'label contents and name sharing patterns beyond the vocabulary (C01)', 'Zeroconf.async_send dropping datagrams above the absolute limit'],
+    'bounds': {'rdata length': [0, MAXLEN], 'id': [0, 65535], 'entries': '<= 7 per message with <= 3 symbolic-length records (0..8900 octets); thorough also 141 entries with one symbolic-length record (0..300 octets)', 'names': 'fixed small vocabulary with shared suffixes'},
+    'outside': ['entries that cannot fit 8966 octets even alone (the code emits an empty datagram and stops)', 'more than about 140 entries; several symbolic lengths among hundreds of entries', 'label contents and name sharing patterns beyond the vocabulary (C01)', 'Zeroconf.async_send dropping datagrams above the absolute limit'],
     'stubs': ['DNSOutgoing._get_short/_write_int/_write_byte replaced by width-preserving value tokens (vkit.wire)', 'rdata blobs: bytes subclass with symbolic __len__ (vkit.pkt.Blob)',
               'DNSOutgoing._reset_for_next_packet wrapped to snapshot each datagram before the reset'],
     'float_sites': [],
